@@ -1519,6 +1519,16 @@ class _CallMixin:
                 return [(ListV(TupleV((Obj(None, _own(recv), False), Plain('derived'))), F, 'local'), st)]
         if kind == 'store':
             if meth in STORE_MUTATORS or meth == 'update':
+                # the store's gate refuses tokens that already live in a store: caller-supplied Borrowed tokens that did not go
+                # through detach() are a refusal point here (TS-GATE checks the gate itself)
+                tok_arg = args[0] if meth in ('splice', '_splice') else args[1] if meth in ('insert_after', 'insert_before', 'replace') and len(args) > 1 else None
+                for x in ([tok_arg.elem] if isinstance(tok_arg, ListV) else list(tok_arg.elems) if isinstance(tok_arg, TupleV) else [tok_arg]):
+                    if isinstance(x, Obj) and x.own == B and x.src == 'param':
+                        self.ref('a token that already lives in a store is refused by the store', st, fr)
+                        break
+                anchor = args[1] if meth in ('splice', '_splice') and len(args) > 1 else args[0] if meth in ('insert_after', 'insert_before', 'remove') and args else None
+                if recv.own == B and anchor is not None and (isinstance(anchor, NoneV) or (isinstance(anchor, Obj) and anchor.nullable)):
+                    self.null_anchors.setdefault((fr.fn_name, fr.stmt), meth)
                 return [(NoneV(), self.mut('store', recv.own, f'token_store.{meth}', st, fr))]
             if meth in STORE_READS_TOKEN:
                 return [(dataclasses.replace(tok, nullable=True), st)]
@@ -2071,6 +2081,7 @@ class EffectInterp(Interp, _EvalMixin, _ExprMixin, _CallMixin, _StmtMixin):
     def __init__(self, p: Program) -> None:
         super().__init__(p)
         self.all_violations: dict = {}
+        self.null_anchors: dict = {}
         self.insts: list = []
 
     # ---------------------------------------------------------------- entry points
